@@ -391,7 +391,7 @@ std::string gen(Rng &r, const Args &a) {
   if (r.below(5) == 0) {
     int64_t e = (int64_t)g.esz[0];
     int64_t c1 = r.range(-20, 20), c2 = r.range(-20, 20), c3 = r.range(-20, 20);
-    switch (r.below(6)) {
+    switch (r.below(9)) {
     case 0: // copy of a summary, then loads from both arrays (relation between summaries)
       if (can_assign && !g.single[0]) {
         int64_t j = r.range(0, 3);
@@ -421,6 +421,24 @@ std::string gen(Rng &r, const Args &a) {
         o << " (ainit 0 a0 (lin 0) (lin " << 3 * e - 1 << ") (lin " << c1 << ")) (astore 0 a1 (lin " << e << ") (lin " << c2 << ") 0)"
           << (r.coin() ? " (range 0 v0 0 2) (astore 0 a1 (lin 0 (" + std::to_string(e) + " v0)) (lin " + std::to_string(c3) + ") 0)" : "")
           << " (aassign 0 a0 a1) (aload 0 v2 a0 (lin " << e * r.range(0, 2) << "))";
+      break;
+    case 6: // init / range store with a SYMBOLIC bound over an array that has tracked cells or none, then a
+            // store at a constant index and a symbolic load that covers tracked and untracked cells
+      if (!g.single[0]) {
+        int64_t lo = r.range(2, 4), hi = lo + r.range(1, 4);
+        o << " (range 0 v0 " << e * lo << " " << e * hi << ")"
+          << (r.coin() ? " (ainit 0 a0 (lin 0) (lin " + std::to_string(e - 1) + " (1 v0)) (lin " + std::to_string(c1) + "))"
+                       : " (ainit 0 a0 (lin 0) (lin " + std::to_string(e - 1) + ") (lin " + std::to_string(c3) + ")) (arange 0 a0 (lin " + std::to_string(e) + ") (lin " + std::to_string(e - 1) + " (1 v0)) (lin " + std::to_string(c1) + "))")
+          << " (astore 0 a0 (lin 0) (lin " << c2 << ") 0) (range 0 v1 0 " << r.range(1, 3) << ")"
+          << " (aload 0 v2 a0 (lin 0 (" << e << " v1))) (aload 0 v3 a0 (lin " << e * r.range(0, 2) << "))";
+      }
+      break;
+    case 7: // range store with symbolic bounds in the middle of an initialised array, then a symbolic load
+      if (!g.single[0]) {
+        o << " (ainit 0 a0 (lin 0) (lin " << 8 * e - 1 << ") (lin " << c1 << ")) (range 0 v0 " << 4 * e << " " << 5 * e << ") (range 0 v1 " << 6 * e << " " << 7 * e << ")"
+          << " (arange 0 a0 (lin 0 (1 v0)) (lin " << e - 1 << " (1 v1)) (lin " << c2 << ")) (range 0 v1 0 7)"
+          << " (aload 0 v2 a0 (lin 0 (" << e << " v1))) (aload 0 v3 a0 (lin " << 5 * e << "))";
+      }
       break;
     default: // loop-like: init, then widening of a store at a growing index, then loads
       if (!g.single[0])
